@@ -1,12 +1,15 @@
 """C02 -- aperture sums are mask-weighted sums over unmasked in-image pixels.
 
 Shape (C): full Cartesian product
-    image shape x aperture (6 classes x sizes, some rotated) x method x
+    image shape x aperture (6 classes x sizes, some rotated; annuli both with a hole smaller than a pixel and with a hole
+    that fully contains image pixels -- for EllipticalAnnulus + 'exact' those pixels carry rounding-residue weights of
+    either sign, about -2e-16 ... +2e-16, instead of 0) x method x
     64 positions (inside / straddling every edge / outside) x
     mask (None, EVERY single-pixel mask, row, column, all-but-one, all; 3x3: ALL 512 masks) x
     data variant (finite, one NaN, +inf/-inf) x error (None, generic finite; on the call-form sub-product of masks also
     a map with NaN / +inf / -inf at three fixed pixels -- summed by some positions, masked / zero-weight for others --
-    and, in the blindness relations, NaN / +inf / -inf at EVERY masked resp. not-summed pixel)
+    and, in the blindness relations, 1e30 resp. NaN / +inf / -inf (data and error, cycled) at EVERY masked resp.
+    not-summed pixel -- not summed = masked, outside the aperture, weight 0 or weight < 0 (rounding residue))
 executed through ``PixelAperture.do_photometry`` / ``area_overlap`` and, on a
 stated sub-product, through every other call form (scalar aperture one at a
 time, ``aperture_photometry`` single / list of two apertures / NDData /
@@ -20,7 +23,7 @@ are  sum(w*d), sqrt(sum(w*e^2)), sum(w)  over the pixels that are inside the
 image, have w > 0 and are not masked; NaN iff the box contains no image pixel.
 Metamorphic relations (bit-exact unless stated): many positions == one at a
 time; list of apertures == separately; linear in data (rtol 1e-12); blind to
-the values stored in masked / zero-weight pixels; sky == to_pixel(wcs);
+the values stored in masked / non-positive-weight pixels (do_photometry, get_values, aperture_photometry); sky == to_pixel(wcs);
 NDData / Quantity == bare arrays (+ units carried); table centres == positions;
 history: an aperture object that was used with other parameters / positions and
 then had every public parameter assigned one at a time (both orders, used after
@@ -40,14 +43,26 @@ RULE = ('full Cartesian product of image shape x aperture spec x method x positi
         'alphabet x data variant x error form, every case executed on the real code; one evaluation = one '
         '(configuration, position) comparison with the direct pixel loop (metamorphic call-form relations are counted '
         'per position as well; on the call-form sub-product of masks the error axis has a third element, a map with '
-        'NaN/+inf/-inf at three fixed pixels, judged by the same direct loop; and on finite data x masks {None, centre pixel} '
+        'NaN/+inf/-inf at three fixed pixels, judged by the same direct loop; the blindness relations overwrite every masked pixel '
+        '(list call) resp. every pixel outside the summed set of one position (masked, outside the aperture, weight 0, or NEGATIVE '
+        'rounding-residue weight as in the hole of an exact EllipticalAnnulus; scalar aperture) with 1e30 resp. with +inf/-inf/NaN '
+        '(data) and NaN/+inf/-inf (error) cycled by pixel index, through do_photometry and ApertureMask.get_values on every '
+        '(call-form mask, data variant) and through aperture_photometry on (finite data, no mask, non-finite fill) (thorough: on all); '
+        'aperture_photometry == do_photometry also for data variant nan x non-finite error map without mask (thorough: every '
+        'non-finite (data variant, error map) pair x every call-form mask); and on finite data x masks {None, centre pixel} '
         '(thorough: all three) the re-assignment history relation: same class 1.5x larger, rotated by 0.9 rad, at the reversed '
         'position list, used, then every parameter of the unit\'s aperture assigned one at a time in both orders '
         '(parameters then positions / positions then parameters), compared after every assignment with a fresh aperture); a case is non-trivial when at least one unmasked in-image pixel has positive aperture '
-        'weight (measured from the registered weights); cases are distinct by construction (distinct product indices)')
+        'weight (measured from the registered weights); how many (unit, position) pairs have an in-image pixel with a negative / '
+        'tiny positive rounding-residue weight is measured and reported in coverage.counters (residue weights are not assumed to '
+        'occur: they are whatever to_mask() returns); cases are distinct by construction (distinct product indices)')
 ASSUMPTIONS = ['the per-pixel weights returned by Aperture.to_mask() and its bbox are correct (decided by C01); this check '
                'owns where they land in the image and which pixels are summed',
                'images are at most 5x5 (6x6 thorough): registration errors that need a larger frame are out of the bound',
+               'a pixel is summed iff its to_mask() weight is > 0 (the property\'s wording): a hole pixel whose computed weight is a '
+               'POSITIVE rounding residue (+1e-16) is therefore part of the sum for the oracle and the implementation alike (whether that '
+               'weight should be 0 is C01\'s question); one whose weight is a negative residue is not',
+               'non-finite values in excluded pixels: NaN, +inf, -inf and the finite 1e30; other huge values are not exercised',
                'sky apertures are exercised with one distortion-free TAN WCS only',
                'masks are boolean arrays (the quantifier of the property); list / integer masks are not exercised',
                'histories of an aperture object: one used state followed by single assignments of every public parameter '
@@ -63,6 +78,8 @@ VARIANTS = ['finite', 'nan', 'inf']
 # area_overlap sums them, the property's pixel set (w > 0) does not -> ATOL_AREA.
 RTOL = 1e-13
 ATOL_AREA = 1e-13
+RESIDUE = 1e-12      # a positive weight below this is a rounding residue (a genuine sliver of overlap that small does not
+                     # occur for the alphabet; only used to LABEL cases in counters / outcomes, never by the oracle)
 
 
 def shapes(tier):
@@ -78,8 +95,14 @@ def aper_specs(tier):
          ['ellipse', 1.2, 0.4, 0.0], ['ellipse', 2.5, 1.2, 0.6],
          ['eann', 0.4, 1.2, 0.8, 0.0], ['eann', 1.2, 2.5, 1.2, 0.6],
          ['rect', 0.8, 0.4, 0.0], ['rect', 2.4, 1.2, 0.0], ['rect', 5.0, 2.4, 0.6],
-         ['rann', 1.2, 2.4, 1.6, 0.0], ['rann', 2.4, 5.0, 3.0, 0.6]]
+         ['rann', 1.2, 2.4, 1.6, 0.0], ['rann', 2.4, 5.0, 3.0, 0.6],
+         # annuli whose HOLE fully contains image pixels: with method 'exact' the weight of such a pixel is
+         # outer overlap - inner overlap = (1 +- eps) - (1 +- eps), a rounding residue of either sign (about -2e-16 ... +2e-16)
+         # instead of 0 for the elliptical annulus (measured: counters residue_*); the property sums w > 0 only
+         ['eann', 1.6, 2.5, 1.8, 0.0], ['eann', 2.0, 3.0, 2.2, 0.6]]
     if tier == 'thorough':
+        s += [['eann', 1.6, 2.4, 2.0, 1.1], ['eann', 2.5, 4.0, 3.2, 2.5], ['cann', 1.6, 2.5], ['rann', 3.0, 5.0, 4.0, 0.0],
+              ['rann', 3.0, 5.0, 4.0, 0.6]]
         s += [['circle', 0.03], ['circle', 0.5], ['circle', 4.0], ['cann', 2.5, 4.0],
               ['ellipse', 0.4, 0.1, 1.0], ['ellipse', 4.0, 0.4, 2.5], ['ellipse', 2.5, 2.5, -0.3],
               ['eann', 2.0, 4.0, 1.0, 2.5], ['rect', 1.0, 1.0, 0.0], ['rect', 2.0, 3.0, math.pi / 2],
@@ -154,14 +177,25 @@ def error_fill(shape, fill):
     return _FILL_CACHE[key]          # read-only use (indexed / copied by the callers)
 
 
-def _error_fill(shape, fill):
+def _error_fill(shape, fill, shift=0):
     """Error values written into excluded pixels by the blindness relations: the data fill value, except that for the
     NaN fill the error cycles through NaN, +inf, -inf by pixel index (0 * NaN and 0 * inf are both NaN)."""
     ny, nx = shape
     if fill == fill:
         return np.full(shape, fill)
     cyc = [np.nan, np.inf, -np.inf]
-    return np.array([[cyc[(iy * nx + ix) % 3] for ix in range(nx)] for iy in range(ny)])
+    return np.array([[cyc[(iy * nx + ix + shift) % 3] for ix in range(nx)] for iy in range(ny)])
+
+
+def data_fill(shape, fill):
+    """Data values written into excluded pixels by the blindness relations: the huge finite fill as it is; the
+    non-finite fill cycles through +inf, -inf, NaN by pixel index (one step ahead of the error cycle, so that every
+    (data, error) pairing of two different non-finite values occurs): w * NaN and w * (+-inf) are all non-finite for
+    every w, including w == 0 and w == -2e-16, so any excluded pixel that reaches a sum shows."""
+    key = (tuple(shape), repr(fill), 'data')
+    if key not in _FILL_CACHE:
+        _FILL_CACHE[key] = _error_fill(shape, fill, shift=1)
+    return _FILL_CACHE[key]
 
 
 # call form -> the block of the check that executes it (used by replay to re-run exactly that block)
@@ -185,6 +219,12 @@ class Ctx:
         self.masks = self.aper.to_mask(**self.kw)
         self.reg = [R.register(mk, self.shape) for mk in self.masks]
         self.cls = [R.posclass(box, self.shape) for box, _ in self.reg]
+        # computed weights that are rounding residues (annulus hole: outer - inner overlap of a fully covered pixel):
+        # 'neg' = some in-image pixel has w < 0, 'pos' = some has 0 < w < RESIDUE; such a pixel is OUTSIDE the summed
+        # set when w < 0 (the property: positive weight) and inside it when w > 0 (C01 owns the value of w)
+        self.residue = [None if wl is None else
+                        ('neg' if any(w < 0 for _, _, w in wl) else 'pos' if any(0 < w < RESIDUE for _, _, w in wl) else None)
+                        for _, wl in self.reg]
         self.img = images(self.shape, seed)
         self.lst = {k: v.tolist() for k, v in self.img.items()}
 
@@ -196,7 +236,14 @@ class Ctx:
     def site(self, form, k, bits, variant):
         c = self.cls[k]
         c = 'cut' if c.startswith('cut') else c
-        return f'{form}:{c}' + (':mask' if bits else '') + (':nonfinite' if variant != 'finite' else '')
+        return (f'{form}:{c}' + (':mask' if bits else '') + (':nonfinite' if variant != 'finite' else '')
+                + (':negative-weight-pixel' if self.residue[k] == 'neg' else ''))
+
+    def summed_values(self, k, bits, variant):
+        """w * data over the summed pixels of position k (in-image, w > 0, not masked), image raster order"""
+        wl = self.reg[k][1]
+        return [] if wl is None else [w * self.lst[variant][iy][ix] for iy, ix, w in wl
+                                      if w > 0 and not ((bits or 0) >> (iy * self.nx + ix)) & 1]
 
 
 def expected(ctx, k, bits, variant, with_err, errkey='err'):
@@ -286,8 +333,16 @@ def run_main(acc, ctx, tier, only_case=None):
                     if ar is not None:
                         compare_area(acc, ctx, bits, 'area_overlap', ar,
                                      only=[only_case['pos_index']] if only_case else None)
-    for c, (box, wl) in zip(ctx.cls, ctx.reg):
+    for c, (box, wl), res in zip(ctx.cls, ctx.reg, ctx.residue):
         acc.outcome(f'{c}|{0 if wl is None else sum(1 for _, _, w in wl if w > 0)}')
+        if only_case is None and wl is not None:
+            hole = sum(1 for _, _, w in wl if w == 0.0)
+            acc.counters['positions_with_negative_residue_weight_pixel'] += res == 'neg'
+            acc.counters['positions_with_positive_residue_weight_pixel'] += any(0 < w < RESIDUE for _, _, w in wl)
+            acc.counters['negative_residue_weight_pixels'] += sum(1 for _, _, w in wl if w < 0)
+            acc.counters['exactly_zero_weight_pixels_in_box'] += hole
+            if res:
+                acc.outcome(f'residue-weight:{res}:{ctx.spec[0]}:{ctx.method[0]}')
 
 
 # ---------------------------------------------------------------------------
@@ -355,8 +410,7 @@ def run_forms(acc, ctx, tier, only_case=None):
                 for k, mk in enumerate(ctx.masks):
                     box, wl = ctx.reg[k]
                     acc.evaluations += 1
-                    exp_vals = [] if wl is None else [w * ctx.lst[variant][iy][ix] for iy, ix, w in wl
-                                                      if w > 0 and not ((bits or 0) >> (iy * ctx.nx + ix)) & 1]
+                    exp_vals = ctx.summed_values(k, bits, variant)
                     acc.nontrivial += bool(exp_vals)
                     got = call(acc, ctx, bits, variant, False, 'get_values', lambda: mk.get_values(data, mask=mask))
                     if got is not None and not bitsame(got, exp_vals):
@@ -377,14 +431,19 @@ def run_forms(acc, ctx, tier, only_case=None):
                                 acc.violation('multiply', ctx.site('multiply', k, bits, variant),
                                               ctx.case(k, bits, variant, False, 'mask-methods'), np.asarray(gm).tolist(), exp.tolist())
 
-            # blind to the values stored in masked pixels (list call) and in zero-weight pixels (per position)
+            # blind to the values stored in masked pixels (list call) and in every pixel outside the summed set (per
+            # position: masked, zero weight, NEGATIVE rounding-residue weight, outside the aperture) -- through
+            # do_photometry, ApertureMask.get_values and (sub-product, see RULE) aperture_photometry
             if want('blind'):
                 for fill in (1e30, np.nan):
+                    dfill, efill = data_fill(ctx.shape, fill), error_fill(ctx.shape, fill)
+                    what = f'{fill} (data and error)' if fill == fill else \
+                        'non-finite values (data: +inf/-inf/NaN, error: NaN/+inf/-inf, cycled by pixel index)'
                     if mask is not None:
                         dd = data.copy()
-                        dd[mask] = fill
+                        dd[mask] = dfill[mask]
                         em = err.copy()
-                        em[mask] = error_fill(ctx.shape, fill)[mask]
+                        em[mask] = efill[mask]
                         r = call(acc, ctx, bits, variant, True, 'blind', lambda: ctx.aper.do_photometry(dd, error=em, mask=mask, **ctx.kw))
                         acc.evaluations += npos
                         acc.nontrivial += npos
@@ -392,13 +451,14 @@ def run_forms(acc, ctx, tier, only_case=None):
                             k = int(np.flatnonzero(~((r[0] == multi[0]) | (np.isnan(r[0]) & np.isnan(multi[0]))))[0]) if not bitsame(r[0], multi[0]) else 0
                             acc.violation('masked-value-blind', ctx.site('do_photometry', k, bits, variant),
                                           ctx.case(k, bits, variant, True, 'blind'), float(r[0][k]), float(multi[0][k]),
-                                          f'masked pixels overwritten with {fill} (data; error: NaN/+inf/-inf cycled for the nan fill)')
+                                          f'masked pixels overwritten with {what}')
+                    table_too = tier == 'thorough' or (variant == 'finite' and bits is None and fill != fill)
                     for k, p in enumerate(ctx.pos):
                         box, wl = ctx.reg[k]
                         if wl is None:
                             continue
-                        dd = np.full(ctx.shape, fill)
-                        ee = error_fill(ctx.shape, fill).copy()
+                        dd = dfill.copy()
+                        ee = efill.copy()
                         for iy, ix, w in wl:
                             if w > 0 and not ((bits or 0) >> (iy * ctx.nx + ix)) & 1:
                                 dd[iy, ix] = data[iy, ix]
@@ -411,7 +471,33 @@ def run_forms(acc, ctx, tier, only_case=None):
                             acc.violation('zero-weight-value-blind', ctx.site('do_photometry', k, bits, variant),
                                           ctx.case(k, bits, variant, True, 'blind'), [float(r[0][0]), float(r[1][0])],
                                           [float(multi[0][k]), float(multi[1][k])],
-                                          f'every pixel outside the summed set overwritten with {fill} (data and error)')
+                                          f'every pixel outside the summed set overwritten with {what}')
+                        # the same image through ApertureMask.get_values: exactly the weighted values of the summed pixels
+                        gv = call(acc, ctx, bits, variant, False, 'blind', lambda: ctx.masks[k].get_values(dd, mask=mask))
+                        acc.evaluations += 1
+                        acc.nontrivial += 1
+                        if gv is not None:
+                            exp_vals = ctx.summed_values(k, bits, variant)
+                            if not bitsame(gv, exp_vals):
+                                acc.violation('zero-weight-value-blind', ctx.site('get_values', k, bits, variant),
+                                              ctx.case(k, bits, variant, False, 'blind'), np.asarray(gv).tolist(), exp_vals,
+                                              f'every pixel outside the summed set overwritten with {what}')
+                        # ... and through aperture_photometry (scalar aperture -> one-row table)
+                        if table_too:
+                            tb = call(acc, ctx, bits, variant, True, 'blind',
+                                      lambda: aperture_photometry(dd, ap1, error=ee, mask=mask, **ctx.kw))
+                            acc.evaluations += 1
+                            acc.nontrivial += 1
+                            if tb is not None:
+                                try:
+                                    got = [float(tb['aperture_sum'][0]), float(tb['aperture_sum_err'][0])]
+                                except Exception as exc:  # noqa: BLE001  (missing column / empty table)
+                                    got = repr(exc)
+                                want_ = [float(multi[0][k]), float(multi[1][k])]
+                                if isinstance(got, str) or not bitsame(got, want_):
+                                    acc.violation('zero-weight-value-blind', ctx.site('aperture_photometry', k, bits, variant),
+                                                  ctx.case(k, bits, variant, True, 'blind'), got, want_,
+                                                  f'every pixel outside the summed set overwritten with {what}')
 
             # error map with NaN / +inf / -inf at three fixed pixels: sum_err is the quadrature sum over exactly the summed
             # pixels -- unchanged where those pixels are masked / zero-weight / outside the box, NaN resp. inf where summed
@@ -422,6 +508,22 @@ def run_forms(acc, ctx, tier, only_case=None):
                 if r is not None:
                     compare_sums(acc, ctx, bits, variant, True, 'error-nonfinite', r[0], r[1], errkey='errnf',
                                  only=[only_case['pos_index']] if only_case else None)
+
+            # aperture_photometry with non-finite values at fixed pixels: data variant nan / inf with the finite error map,
+            # and every data variant with the non-finite error map == do_photometry (judged above by the direct loop)
+            if want('table') and (tier == 'thorough' or bits is None):
+                for errkey in ('err', 'errnf'):
+                    if variant == 'finite' and errkey == 'err':
+                        continue        # the plain case: block (c) below
+                    if tier != 'thorough' and (variant, errkey) != ('nan', 'errnf'):
+                        continue
+                    e_ = ctx.img[errkey]
+                    ref = multi if errkey == 'err' else call(acc, ctx, bits, variant, True, 'list-call',
+                                                             lambda: ctx.aper.do_photometry(data, error=e_, mask=mask, **ctx.kw))
+                    tbl = call(acc, ctx, bits, variant, True, 'aperture_photometry',
+                               lambda: aperture_photometry(data, ctx.aper, error=e_, mask=mask, **ctx.kw))
+                    if tbl is not None and ref is not None:
+                        check_table(acc, ctx, bits, variant, True, f'aperture_photometry:{errkey}', tbl, '', ref, ctx.pos)
 
             if variant != 'finite':
                 continue
@@ -650,15 +752,23 @@ def replay(case, seed):
 def describe(tier, seed):
     return {'alphabet': {'image_shapes': [list(s) for s in shapes(tier)],
                          'apertures': aper_specs(tier), 'methods': [list(m) for m in METHODS],
+                         'annulus_holes': 'smaller than a pixel (no pixel fully inside) AND fully containing image pixels, for every annulus '
+                                          'class (cann 1.2/2.5, rann 3.0/5.0 [thorough], eann 1.6/2.5/1.8 theta 0 and 2.0/3.0/2.2 theta 0.6 '
+                                          '[+ 1.6/2.4/2.0 theta 1.1 and 2.5/4.0/3.2 theta 2.5 thorough]); exact EllipticalAnnulus hole pixels '
+                                          'carry weights -2e-16..+2e-16: counted in coverage.counters',
                          'positions': 'x, y in {-3, -0.5, 0, 0.3, mid+generic, n-1, n-0.5, n+3} (full 8x8 grid, duplicates removed)',
                          'masks': 'None, every single-pixel mask, middle row, middle column, all-but-one, all; 3x3: all 512 '
                                   '(quick: on finite data with error; thorough: every variant)',
                          'data_variants': VARIANTS,
                          'error': ['generic finite', None, 'call-form sub-product: NaN/+inf/-inf at (centre, first, last) pixel '
                                    '(form error-nonfinite, direct oracle); blindness relations: NaN/+inf/-inf cycled over every '
-                                   'masked pixel (list call) resp. every not-summed pixel (scalar apertures)'],
+                                   'masked pixel (list call) resp. every not-summed pixel (scalar apertures); the data there is 1e30 '
+                                   'resp. +inf/-inf/NaN cycled one step ahead of the error'],
                          'call_forms': 'do_photometry/area_overlap (full product); scalar one-at-a-time, get_values/multiply, '
-                                       'blindness, non-finite error map, linearity, aperture_photometry single on masks {None, centre pixel, all-but-centre}; '
+                                       'blindness (do_photometry list + scalar, get_values scalar), non-finite error map, linearity, aperture_photometry single on masks {None, centre pixel, all-but-centre}; '
+                                       'blindness through scalar aperture_photometry on finite data x mask None x non-finite fill (thorough: every variant x mask x fill); '
+                                       'aperture_photometry == do_photometry on data nan x non-finite error map x mask None (thorough: all non-finite '
+                                       '(data, error map) pairs x all three masks); '
                                        're-assignment history (used aperture with other parameters -> every parameter and the positions assigned one '
                                        'at a time, 2 orders, judged after every step against a fresh aperture; finally area_overlap and the '
                                        'aperture_photometry table) on finite data x masks {None, centre pixel} (thorough: all three); '
